@@ -581,6 +581,24 @@ func genRouter(profile string) func(rng *rand.Rand, n int, tier string, emit fun
 			if profile == "C08" && rng.Intn(5) == 0 {
 				policy = "same" // go on with the same instance after a rejection: a failed registration answers nothing
 			}
+			if profile == "C08" && policy == "rebuild" && rng.Intn(12) == 0 {
+				// two routes that differ only by a '?' inside an expression are different routes (both accepted); two
+				// different match-alls in the middle at the same position cannot coexist (the second is refused),
+				// whatever other children that position has
+				lit := func(x string) *Sx { return T("seg", B(false), T("id", X(x))) }
+				ma := func(n string) *Sx { return T("seg", B(false), T("params", T("p", X(n), T("lit", X("**"))))) }
+				w := fmt.Sprintf("w%d", i%7)
+				ab1 := T("seg", B(false), T("params", g.regexParam("a", T("cat", T("lit", X("a")), T("opt", T("lit", X("b")))))))
+				ab2 := T("seg", B(false), T("params", g.regexParam("a", T("cat", T("lit", X("a")), T("lit", X("b"))))))
+				seq := []*Sx{T("route", lit(w), ab1), T("route", lit(w), ab2),
+					T("route", lit(w), lit("st"), lit("x")), T("route", lit(w), ma("m1"), lit("y")), T("route", lit(w), ma("m2"), lit("z"))}
+				for _, r := range seq {
+					ops = append(ops, T("reg", T("m", A("GET")), r))
+					accepted = append(accepted, r)
+				}
+				ops = append(ops, T("req", X("GET"), X("/"+w+"/ab"), T("hdrs")), T("req", X("GET"), X("/"+w+"/a"), T("hdrs")),
+					T("req", X("GET"), X("/"+w+"/q/r/z"), T("hdrs")), T("req", X("GET"), X("/"+w+"/q/y"), T("hdrs")))
+			}
 			for k := 0; k < nreg; k++ {
 				var r *Sx
 				badP := 12
@@ -704,6 +722,7 @@ func genRouter(profile string) func(rng *rand.Rand, n int, tier string, emit fun
 						ops = append(ops, T("req", X(m), X(alt), T("hdrs", hs...)))
 						ops = append(ops, T("req", X(m), X(alt), T("hdrs")))
 						ops = append(ops, T("req", X(m), X(p), T("hdrs")))
+						ops = append(ops, T("req", X(m), X(p), T("hdrs", hs...))) // and with them again: a miss is not remembered
 					}
 				}
 			}
